@@ -113,6 +113,7 @@ func (x *xwalker) run(st *xstate) {
 				return // loop bound reached on this path
 			}
 			st.visits[key]++
+			st.trail = append(st.trail, b)
 			if x.Memo != nil {
 				k := x.StateKey(st)
 				if x.Memo[k] {
@@ -168,6 +169,7 @@ func (x *xwalker) run(st *xstate) {
 			if len(st.frames) == 1 {
 				x.paths++
 				if x.OnReturn != nil {
+					st.user["@ret"] = t
 					x.OnReturn(x, st, rs)
 				}
 				return
@@ -199,6 +201,7 @@ func (x *xwalker) run(st *xstate) {
 		case *ssa.Panic:
 			x.paths++
 			if x.OnPanic != nil {
+				st.user["@panic"] = t
 				x.OnPanic(x, st)
 			}
 			return
@@ -221,9 +224,21 @@ func (x *xwalker) run(st *xstate) {
 			}
 			// default: symbolic (seeds may still apply)
 			x.w.transfer(st.wstate, t, fr.prev)
+			if x.w.OnInstr != nil {
+				x.w.OnInstr(x.w, st.wstate, in)
+			}
 			continue
 		case *ssa.Extract:
 			fr.idx++
+			if x.w.Seed != nil {
+				if a := x.w.Seed(x.w, st.wstate, t); a != nil {
+					st.vals[t] = a
+					if x.w.OnInstr != nil {
+						x.w.OnInstr(x.w, st.wstate, in)
+					}
+					continue
+				}
+			}
 			tv := x.eval(st, t.Tuple)
 			if tv.k == avStruct {
 				if f, ok := tv.fields[fmt.Sprint(t.Index)]; ok && f != nil {
@@ -235,10 +250,19 @@ func (x *xwalker) run(st *xstate) {
 			continue
 		case *ssa.RunDefers, *ssa.Go, *ssa.Defer, *ssa.Send, *ssa.MapUpdate, *ssa.DebugRef:
 			fr.idx++
+			if d, ok := in.(*ssa.Defer); ok {
+				st.defers = append(st.defers, d)
+			}
+			if x.w.OnInstr != nil {
+				x.w.OnInstr(x.w, st.wstate, in)
+			}
 			continue
 		default:
 			fr.idx++
 			x.w.transfer(st.wstate, in, fr.prev)
+			if x.w.OnInstr != nil {
+				x.w.OnInstr(x.w, st.wstate, in)
+			}
 			continue
 		}
 	}
